@@ -749,7 +749,6 @@ def loadBpmFile (f : File α) : Bpm α :=
 
 /-- the state `LagElement.update` gives a particle (bent_plume_model.py l.3195-3222) -/
 structure PState (α : Type) where
-  heatOff : Bool        -- `properties` found the particle within 0.5 K of the plume water at the first row
   integrate : Bool
   tp : α
   xp : α
@@ -760,13 +759,13 @@ structure PState (α : Type) where
     `update` re-derives, from the FIRST row of the solution, every particle's `integrate` flag
     (X_p is NaN ⇔ outside) and, through `track`, its `t, x, y, z` — overwriting what the reader took
     from the file (the state at the END of the simulation).  `particle.update → properties` (dispersed_phases
-    l.206-207) also sets `K_T = 0` for a particle that is within 0.5 K of the plume water at that row; unlike
-    `simulate` (l.311-313), `load_sim` does not restore `K_T` from `K_T0` afterwards.  The values are those the plume
+    l.206-207) also sets `K_T = 0` for a particle that is within 0.5 K of the plume water at that row; like
+    `simulate`, `load_sim` then restores every particle's `K_T` from `K_T0` (the loop right after the
+    construction of `q_local`), so `K_T` is what the file holds.  The values are those the plume
     kinematics give (`st`, an input here: not data movement); no other definition field changes. -/
 def lagReset : List (PState α) → List (Particle α) → List (Particle α)
   | s :: st, p :: ps =>
-    { p with K_T := if s.heatOff then 0 else p.K_T,
-             integrate := s.integrate, tp := s.tp, xp := s.xp, yp := s.yp, zp := s.zp } :: lagReset st ps
+    { p with integrate := s.integrate, tp := s.tp, xp := s.xp, yp := s.yp, zp := s.zp } :: lagReset st ps
   | _, ps => ps
 
 /-- `bent_plume_model.Model.load_sim` -/
@@ -1091,13 +1090,12 @@ def pBpm : P (Bpm Float) := do
 
 def pStates : P (List (PState Float)) := do
   pMany (← pNat) (do
-    let h ← pBool
     let i ← pBool
     let t ← pF
     let x ← pF
     let y ← pF
     let z ← pF
-    pure ⟨h, i, t, x, y, z⟩)
+    pure ⟨i, t, x, y, z⟩)
 
 def pSpm : P (Spm Float) := do
   let ps ← pParticles
